@@ -50,7 +50,7 @@ Outcome execute(const Workload &w, const Plan &plan, std::vector<std::string> *t
     {
         try
         {
-            S.begin_run(plan, 2000000);
+            S.begin_run(plan, 20000000);
             begun = true;
             w.exec(plan, ctx);
         }
